@@ -300,6 +300,9 @@ def run(ctx: Ctx):
             if why:
                 ctx.report(f"C03 oracle (plugin, several files, {n}): " + why, {"kind": "plugin_project", "files": item[0], "flag": item[1], "after": o["after"][n].decode("utf-8", "replace")})
     ctx.coverage["oracle"]["plugin_sessions"] = len(PLUGIN_TESTS) + len(PLUGIN_PROJECTS)
+    # the only edit allowed outside snapshot() calls: the inserted import line (Model/Imports.v)
+    from .. import importscorr as ic
+    ic.check_part(ctx, 300 if not ctx.thorough else 3000, "C03")
 
 
 def _plugin_tag(src, o):
@@ -314,6 +317,9 @@ def _ser(p):
 
 def replay(ctx: Ctx, data):
     case = data["case"]
+    if case.get("kind") == "imports":
+        from .. import importscorr as ic
+        return ic.replay_case(case)
     if case.get("kind") == "plugin":
         o = run_plugin_case((case["source"], case["flag"], False))
         print(o["after"].decode("utf-8", "replace"), o["tail"])
